@@ -37,8 +37,8 @@ def main(argv=None):
     chk = Check(pid, a.tier, seed)
     try:
         mod = importlib.import_module("oasa.rules.%s" % pid.lower())
-    except ImportError as e:
-        print("ANALYSIS-ERROR property=%s no rule module: %s" % (pid, e))
+    except Exception as e:  # includes errors of the checker's own code: never a verdict
+        print("ANALYSIS-ERROR property=%s rule module not loadable: %s: %s" % (pid, type(e).__name__, e))
         return 2
     try:
         repo = get_repo(a.repo)
